@@ -76,7 +76,7 @@ def _revert():
 def _cheat(sig, arg_items, lab):
     """call hevm cheatcode `sig` with one word argument produced by arg_items"""
     return [("pushn", 32, sel_int(sig) << 224), "PUSH0", "MSTORE"] + arg_items + [("push", 4), "MSTORE",
-            "PUSH0", "PUSH0", ("push", 0x24), "PUSH0", "PUSH0", ("pushn", 20, HEVM), "GAS", "CALL", "POP"]
+            "PUSH0", "PUSH0", ("push", 0x24), "PUSH0", "PUSH0", ("pushn", 20, HEVM), ("pushn", 3, 0xFFFFFF), "CALL", "POP"]
 
 
 def gen_func_code(f, lab):
@@ -157,7 +157,7 @@ def dispatcher(entries):
 
 
 def getter_funcs(nslots=2):
-    return [{"name": f"s{i}", "kind": "get", "slot": i, "view": True, "checkvalue": False} for i in range(nslots)]
+    return [{"name": f"get{i}", "kind": "get", "slot": i, "view": True, "checkvalue": False} for i in range(nslots)]
 
 
 def build_target(t):
@@ -209,9 +209,9 @@ def gen_invariant(inv, lab):
     if k == "bal_zero":      # assert(address(target).balance == 0)
         return it + [("pushn", 20, inv["addr"]), "BALANCE", ("ref", bad), "JUMPI", "STOP", ("label", bad)] + _panic(1)
     # read target.s<slot>() through STATICCALL
-    getter = sel_int(f"s{inv['slot']}()")
+    getter = sel_int(f"get{inv['slot']}()")
     it += [("pushn", 32, getter << 224), "PUSH0", "MSTORE",
-           ("push", 32), ("push", 32), ("push", 4), "PUSH0", ("pushn", 20, inv["addr"]), "GAS", "STATICCALL", "POP",
+           ("push", 32), ("push", 32), ("push", 4), "PUSH0", ("pushn", 20, inv["addr"]), ("pushn", 3, 0xFFFFFF), "STATICCALL", "POP",
            ("push", 32), "MLOAD"]                       # value
     if k == "slot_ne":       # assert(v != K)
         it += [("push", inv["k"]), "EQ"]
@@ -323,7 +323,7 @@ def write_project(case, root):
 ANSI = re.compile(r"\x1b\[[0-9;]*m")
 
 
-def run_halmos(case, timeout=120, extra=()):
+def run_halmos(case, timeout=120, extra=(), instrument=False):
     """Runs the real halmos end to end (subprocess) on the fabricated project.
     -> dict(exitcode, stdout, results={funsig: exitcode}, statuses={funsig: 'PASS'|'FAIL'|...}, cex=[...], ...)"""
     from harness import common
@@ -337,7 +337,9 @@ def run_halmos(case, timeout=120, extra=()):
         env["PYTHONPATH"] = str(common.REPO / "src")
         env["COLUMNS"] = "400"
         env["NO_COLOR"] = "1"
-        cmd = [common.PY, "-m", "halmos", "--root", root, "--json-output", out_json, "--no-status",
+        trace_path = os.path.join(root, "trace.json")
+        head = [common.PY, os.path.join(os.path.dirname(os.path.abspath(__file__)), "c15_inproc.py"), trace_path] if instrument else [common.PY, "-m", "halmos"]
+        cmd = [*head, "--root", root, "--json-output", out_json, "--no-status",
                "--invariant-depth", str(case.get("depth", 2)), "--solver-timeout-assertion", "20s", *case.get("args", []), *extra]
         try:
             p = subprocess.run(cmd, capture_output=True, text=True, env=env, timeout=timeout, cwd=root)
@@ -351,6 +353,13 @@ def run_halmos(case, timeout=120, extra=()):
         except Exception:  # noqa: BLE001
             res["json"] = None
         res.update(parse_output(stdout))
+        if instrument:
+            try:
+                with open(trace_path) as f:
+                    res["trace"] = json.load(f)
+            except Exception as e:  # noqa: BLE001
+                res["trace"] = None
+                res["trace_error"] = repr(e)
         return res
     finally:
         shutil.rmtree(root, ignore_errors=True)
